@@ -7,7 +7,7 @@ use stateright::*;
 use std::collections::{HashMap, VecDeque};
 use std::io::{BufRead, Read, Write};
 use std::net::TcpStream;
-use std::sync::atomic::{AtomicU16, Ordering};
+use std::sync::atomic::Ordering;
 use std::sync::{Arc, Mutex};
 use std::time::{Duration, Instant};
 
@@ -78,17 +78,49 @@ fn fp_of(node: u32) -> String {
     Path::from_actions(&One(node), node, Vec::<&u16>::new()).unwrap().encode()
 }
 
-static PORT: AtomicU16 = AtomicU16::new(0);
-
+/// a port the OS considers free right now (ephemeral range; the listener is closed again, serve() binds it next)
 fn next_port() -> u16 {
-    // find a free port by binding to port 0 once, then probing upwards
-    loop {
-        let p = PORT.fetch_add(1, Ordering::SeqCst);
-        let p = 20000 + (p % 20000);
-        if std::net::TcpListener::bind(("127.0.0.1", p)).is_ok() {
-            return p;
+    let l = std::net::TcpListener::bind(("127.0.0.1", 0)).expect("bind port 0");
+    l.local_addr().expect("local addr").port()
+}
+
+/// Starts the real Explorer for `model` on a loopback port and returns the port. serve() only returns (by panicking) when it could not
+/// bind (another process - e.g. a second harness run - took the port in between): then another port is tried, so that
+/// the queries are never answered by somebody else's Explorer.
+fn start_explorer(model: &TableModel) -> u16 {
+    for _ in 0..20 {
+        let port = next_port();
+        let failed = Arc::new(std::sync::atomic::AtomicBool::new(false));
+        let started = Arc::new(std::sync::atomic::AtomicBool::new(false));
+        let (f2, s2, m2) = (Arc::clone(&failed), Arc::clone(&started), model.clone());
+        std::thread::Builder::new()
+            .name("explorer".into())
+            .spawn(move || {
+                s2.store(true, Ordering::SeqCst);
+                // (serve() unwraps the result of binding: a lost port shows as a panic of this thread)
+                let _ = std::panic::catch_unwind(std::panic::AssertUnwindSafe(|| {
+                    let _ = m2.checker().threads(1).serve(("127.0.0.1", port));
+                }));
+                f2.store(true, Ordering::SeqCst);
+            })
+            .unwrap();
+        // wait until it answers (or gave up)
+        let t0 = Instant::now();
+        let mut up = false;
+        while t0.elapsed() < Duration::from_secs(20) && !failed.load(Ordering::SeqCst) {
+            if started.load(Ordering::SeqCst) && TcpStream::connect(("127.0.0.1", port)).is_ok() {
+                up = true;
+                break;
+            }
+            std::thread::sleep(Duration::from_millis(2));
+        }
+        // a failed bind shows within microseconds of the start of serve(); give it a moment before trusting the port
+        std::thread::sleep(Duration::from_millis(40));
+        if up && !failed.load(Ordering::SeqCst) {
+            return port;
         }
     }
+    panic!("could not start an Explorer instance");
 }
 
 /// all action paths (from every init state) up to `depth` actions, following DEFINED transitions (boundary ignored,
@@ -161,14 +193,7 @@ fn parse_status(body: &str, rev: &HashMap<String, u32>) -> Value {
 
 pub fn explore_one(g: &Graph, depth: usize, rng_seed: u64) -> Value {
     let model = TableModel::new(g.clone());
-    let port = next_port();
-    let m2 = model.clone();
-    std::thread::Builder::new()
-        .name("explorer".into())
-        .spawn(move || {
-            let _ = m2.checker().threads(1).serve(("127.0.0.1", port));
-        })
-        .unwrap();
+    let port = start_explorer(&model);
     let mut rev: HashMap<String, u32> = HashMap::new();
     for s in 1..=g.n {
         rev.insert(fp_of(s), s);
